@@ -1,13 +1,20 @@
 """C19 Transaction checking accepts exactly the specification-valid transactions — rule-presence clauses.
 
   TAB-rule-guards   for every place where the checking code constructs a ValidityError, the *controlling
-                    condition* (nearest branch the construction is control dependent on) is extracted in a
-                    normalised form — comparison: error region of (a vs b) plus the identifier leaf sets of both
-                    operands; boolean call: callee/operand leaf set and polarity; enum test: matched variants —
-                    and compared with the reviewed table tables/C19_guards.json (one row per function x error
-                    variant, written from the specification while reading the code). A rule that is dropped,
-                    weakened (`!= 1` -> `any`, `>` -> `>=`) or attached to another operand is a difference.
-                    New rules are reported as information, not as violations.
+                    condition* is extracted in a canonical form (fvlib.core.site_guard): comparison -> error region of
+                    (a vs b) plus the identifier leaf sets of both operands; boolean call -> callee/operand leaf set and
+                    polarity; enum test -> matched variants; `opt.ok_or(E)` / `ok_or_else(|| E)` / `match opt { None => E }`
+                    -> none-of(opt); an or-pattern arm with an `if` guard -> the guard of every alternative. The form is
+                    free of names of locals and parameters (positional), sees through `let` bindings, iterator/Option
+                    plumbing and closures handed to combinators, and a site in a closure carries what the closure
+                    iterates over. It is compared with the reviewed table tables/C19_guards.json (one row per
+                    function x error variant, written from the specification while reading the code) by
+                    fvlib.core.guards_match: same relation / polarity / matched values / constants / arithmetic
+                    operators and every reviewed identifier still takes part; when only the control shape was rewritten
+                    (loop <-> iterator chain, match <-> ok_or, closure <-> inline, helper extracted) every reviewed
+                    identifier must still take part. A rule that is dropped, weakened (`!= 1` -> `any`, `>` -> `>=`,
+                    `+ 1`), inverted or attached to another operand is a difference. New rules are reported as
+                    information, not as violations.
   MAT-kinds         each transaction kind's check entry still reaches the common rules (check_common_part,
                     per-input and per-output checks) and its own unique rules.
   DOM-into_checked  every IntoChecked::into_checked_basic: precompute(chain_id)? and
@@ -27,8 +34,9 @@ import os
 import re
 
 from fvlib.core import (CFG, CallGraph, agg_blocks, assignments, call_blocks, calls, callee_matches, callee_name,
-                        controlling_guard, describe, short)
+                        describe, parent_fn, short, site_guard)
 from fvlib.summ import ok_sites
+from fvlib import tables
 
 VERIF = os.path.dirname(os.path.dirname(os.path.abspath(__file__)))
 TABLE = os.path.join(VERIF, "tables", "C19_guards.json")
@@ -41,19 +49,15 @@ def extract(F):
         for n, f in F.fns(crate).items():
             if SKIP.search(n):
                 continue
-            blocks = [(i, rv[2]) for i, j, p, rv, line in assignments(f) if rv[0] == "agg" and rv[1].endswith("validity::error::ValidityError") or
-                      (rv[0] == "agg" and rv[1].endswith("::ValidityError"))]
+            blocks = [(i, rv[2], p[0] if len(p) == 1 else None, line) for i, j, p, rv, line in assignments(f) if rv[0] == "agg" and rv[1].endswith("::ValidityError")]
             if not blocks:
                 continue
             cfg = CFG(f)
-            for b, var in blocks:
+            for b, var, loc, line in blocks:
                 if b not in cfg.reach:
                     continue
-                g = controlling_guard(f, cfg, b)
-                g.pop("bb", None)
-                out.setdefault("%s @ %s" % (var, short(n)), []).append(g)
-    for k in out:
-        out[k] = sorted(out[k], key=lambda g: json.dumps(g, sort_keys=True))
+                for g in site_guard(F, n, f, cfg, b, value_local=loc):
+                    out.setdefault("%s @ %s" % (var, short(parent_fn(n))), []).append((g, "%s:%s" % (f["file"], line)))
     return out
 
 
@@ -80,18 +84,15 @@ def run(F, rep, tier, allfacts):
     got = extract(F)
     if os.environ.get("FV_WRITE_TABLES") == "1":
         os.makedirs(os.path.dirname(TABLE), exist_ok=True)
-        json.dump(got, open(TABLE, "w"), indent=1, sort_keys=True)
+        rows = {}
+        for k, v in got.items():
+            u = {json.dumps(d, sort_keys=True): d for d, _ in v}
+            rows[k] = [u[x] for x in sorted(u)]
+        json.dump(rows, open(TABLE, "w"), indent=1, sort_keys=True)
     want = json.load(open(TABLE))
     rep.floor("TAB-rule-guards", "rule rows extracted", len(got), 60)
-    for k in sorted(want):
-        if k not in got:
-            rep.bad("TAB-rule-guards", k, None, "validity rule disappeared: no ValidityError::%s is constructed in %s any more" % tuple(k.split(" @ ")))
-            continue
-        rep.check(got[k] == want[k], "TAB-rule-guards", k, None,
-                  "the condition under which %s is raised changed: expected %s, found %s" % (k, json.dumps(want[k]), json.dumps(got[k])))
-    for k in sorted(set(got) - set(want)):
-        rep.note("new rule (not in the reviewed table): %s %s" % (k, json.dumps(got[k])))
-    rep.sample({k: got[k] for k in sorted(got)[:6]})
+    tables.compare(rep, "TAB-rule-guards", want, got, missing_is_violation=True, new_is_violation=False, what="validity rule")
+    rep.sample({k: [d for d, _ in got[k]] for k in sorted(got)[:6]})
 
     # ---------------- kinds
     kinds = {"script": "ScriptBody", "create": "CreateBody", "upgrade": "UpgradeBody", "upload": "UploadBody", "blob": "BlobBody"}
